@@ -10,15 +10,81 @@ from harness.core import Outcome
 
 ID = "C13"
 LEAN_TARGETS = ["BeyondVerif.Props.C13", "BeyondVerif.Witness.C13"]
-THEOREMS = []          # filled below (kept as a plain literal for manifest_gen)
-LEVEL_TEXT = ""
-LEVEL_NOTE = ""
-TECHNIQUE = ""
-TRUSTED = []
-ASSUMPTIONS = []
-NOT_COVERED = []
-OPEN = []
-RULE = ""
+THEOREMS = [
+    "BeyondVerif.C13.recurseKids_group",
+    "BeyondVerif.C13.iterGroup_promote",
+    "BeyondVerif.C13.iterGroup_single_fails",
+    "BeyondVerif.C13.xml_group_roundtrip",
+    "BeyondVerif.C13.covRead_matches_writers",
+    "BeyondVerif.C13.oemCovRows_match_writers",
+    "BeyondVerif.C13.frames_roundtrip",
+    "BeyondVerif.C13.cov_frame_alias_roundtrip",
+    "BeyondVerif.C13.man_frame_alias_roundtrip_partial",
+    "BeyondVerif.C13.written_units_known",
+    "BeyondVerif.C13.man_xml_roundtrip",
+    "BeyondVerif.C13.mans_xml_roundtrip",
+    "BeyondVerif.C13.manFrameBack_ok",
+    "BeyondVerif.C13W.oem_xml_one_point_fails",
+    "BeyondVerif.C13W.oem_kvn_one_point_ok",
+    "BeyondVerif.C13W.oem_xml_two_points_ok",
+    "BeyondVerif.C13W.oem_xml_one_cov_fails",
+    "BeyondVerif.C13W.oem_kvn_one_cov_ok",
+    "BeyondVerif.C13W.opm_qsw_man_reloads_rsw",
+    "BeyondVerif.C13W.opm_tnw_man_ok",
+    "BeyondVerif.C13W.opm_xml_one_user_defined_fails",
+    "BeyondVerif.C13W.opm_xml_empty_user_defined_fails",
+    "BeyondVerif.C13W.omm_xml_one_user_defined_fails",
+    "BeyondVerif.C13W.omm_loaded_cannot_be_dumped_kvn",
+    "BeyondVerif.C13W.tdm_xml_one_obs_fails",
+    "BeyondVerif.C13W.tdm_doppler_not_read",
+    "BeyondVerif.C13W.tdm_elevation_without_azimuth_fails",
+    "BeyondVerif.C13W.tdm_two_paths_reload_as_list",
+]
+LEVEL_TEXT = ("Lean theorems over a structural model of beyond/io/ccsds (element trees, tokenised KVN lines, xml2dict / kvn2dict, the eight "
+              "readers/writers): for EVERY list length the dict builder turns a run of same-tag siblings into the value (one) or the list (two or more) "
+              "and the readers' iteration gets exactly the written values back iff the reader wraps a lone value or the run is not of length one "
+              "(xml_group_roundtrip, by induction); maneuver blocks of an OPM come back for every number of maneuvers, every field value "
+              "(mans_xml_roundtrip), the frame tag exactly when the alias tables invert each other (own frame, TNW: yes; QSW: kernel-checked no). "
+              "Tables regenerated from the source on every run and checked by `decide`: the 6x6 covariance key matrix is symmetric and equals the "
+              "writers' keys, the OEM row keys, the ten frames' CENTER_NAME/REF_FRAME map back, covariance frame aliases invert, written units are "
+              "known. Exact differential correspondence (message tokens at written precision, error kinds) of the compiled model with the real "
+              "dumps/loads for all four message types x both encodings x re-dump.")
+LEVEL_NOTE = ("message-level `load (dump m) = m` for arbitrary messages is proved only for the maneuver group (XML) and the group mechanism; for whole "
+              "messages it is kernel-checked on concrete instances (Witness/C13.lean) and compared exactly with the implementation on generated ones; "
+              "11 clauses are false of the current code (known findings with proposed patches); float formatting/parsing, lxml and KVN tokenisation "
+              "are parameters of the model; Lean kernel + propext/Classical.choice/Quot.sound")
+TECHNIQUE = ("Lean 4 proof by induction over sibling lists + kernel `decide` on tables regenerated from the Python AST and on concrete messages; "
+             "exact model/implementation correspondence through the line-protocol driver")
+TRUSTED = [
+    "harness/props/C13.py read_tables(): AST extraction of units_dict keys, covariance key matrix / element names / key spelling, frame alias rules of "
+    "writers and readers, OEM KVN covariance row keys, OMM theories, TDM writer names / reader keys / metadata triggers, which XML groups each reader "
+    "wraps into a list, whether the OMM KVN writer needs data.tle and whether dumps accepts a list of sets -> Generated/CcsdsTables.lean; frame table from the live frame objects",
+    "float formatting (the writers' format specs, re-applied by the harness to the reloaded object) and float()/strptime parsing: texts are opaque tokens in the model",
+    "lxml serialisation/parsing (element tree <-> text, pretty_print whitespace) and the splitting of KVN text into lines, `key = value [unit]` and whitespace-separated rows",
+    "correspondence: real dumps/loads (format by argument and by configuration) vs compiled Lean model on identical messages; exact comparison of all restored fields as written text, and of exception kinds",
+]
+ASSUMPTIONS = [
+    "Model/Ccsds.lean is hand-written, branch for branch after the Python; it is tied to the code by the regenerated tables and the exact correspondence run",
+    "unit conversion factors (units_dict values), Date arithmetic to the microsecond and numpy float parsing are outside the model; the oracle checks restored values with the property's tolerances (1 us, 1 mm, 1 mm/s, 1e-10 relative covariance)",
+    "free texts (names, comments, user-defined values) are non-empty, do not start or end with blanks and contain none of '=', '[', 'COMMENT', line breaks; only Earth-centred frames (the ten of the quantifier); at most 9 TDM participants per path",
+    "KVN user-defined keys are modelled as a sub-dict instead of a key prefix; `key.startswith('MAN_')` is modelled on the seven MAN_ keys the writers produce",
+]
+NOT_COVERED = [
+    "general message-level round trip `load (dump m) = m` for whole OPM/OMM/OEM/TDM messages in Lean (only the group mechanism, the maneuver group in XML and the key/alias/frame tables are general theorems; whole messages are decide'd instances + exact correspondence)",
+    "interplanetary centres (CENTER_NAME other than EARTH), OMM ephemeris type / classification (XML writes constants 0 / U), continuous maneuvers shorter than 0.5 ms (reload as impulsive), acceleration columns of foreign OEMs",
+    "string-level corner cases: texts containing '=', '[', 'COMMENT', leading/trailing blanks or that are empty/whitespace-only",
+    "clauses false of the current code: see known_findings.d/C13.json (11 open findings, 5 proposed patches)",
+]
+OPEN = [
+    "load_dump_id / kvn_xml_agree / redump_total as universally quantified theorems over whole messages, for each type and encoding (proved: xml_group_roundtrip for every list length, mans_xml_roundtrip; the analogous state-vector / covariance / observation / user-defined groups and the KVN state machines are covered by decide'd instances and the correspondence only)",
+    "man_frame_alias_roundtrip for QSW (false of the current code: opm_qsw_man_reloads_rsw; becomes provable by `decide` once the readers map RSW back, proposed_fixes/C13-maneuver-frame-rsw.diff)",
+]
+RULE = ("correspondence: objects generated from one PRNG (OPM: 10 frames x 6 scales, StateVector or Orbit, name/id as attributes or keyword arguments, kep on/off, covariance absent/own/QSW/TNW, "
+        "0-3 maneuvers impulsive/continuous in None/QSW/TNW with/without comment, user-defined fields absent/empty/1/2-4; OMM: via Tle or direct, covariance, user-defined; "
+        "OEM: 1-3 segments of 1-12 points with 0..n covariances, linear/lagrange, orders; TDM: 1-2 paths, 1-10 epochs, Range/Azimut/Elevation(/Doppler)), "
+        "format by fmt= (4/5) or configuration (1/5); per object 2 round trips + 4 re-dumps; a case is one request line, distinct = distinct line. "
+        "oracle: the same generators plus the 13 fixed witness objects, loads(dumps(x)) compared field by field with the property's tolerances, "
+        "KVN vs XML agreement, re-dump of everything loaded; failure family = exception type @ innermost beyond/io/ccsds function (or field that differs) + input class")
 
 FRAMES = ["EME2000", "MOD", "TOD", "TEME", "PEF", "ITRF", "TIRF", "CIRF", "GCRF", "G50"]
 SCALES = ["UTC", "TAI", "TT", "GPS", "UT1", "TDB"]
@@ -649,10 +715,36 @@ def compare_exact(a, b):
     return d[0] if d else None
 
 
+def witness_specs():
+    """the inputs of lean/BeyondVerif/Witness/C13.lean as real objects (fixed, independent of the seed)"""
+    st = [7.0e6, 1.0e5, -3.0e5, 10.0, 7500.0, 300.0]
+    ep = 7367 * 86400 * 10**6 + 123456
+    cov = {"frame": "own", "vals": [[1.0 if i == j else 0.0 for j in range(6)] for i in range(6)]}
+    pt = lambda i, c=None: {"epoch": ep + i * 60 * 10**6, "state": st, "cov": c}
+    seg = lambda pts: {"name": "SAT", "id": "2020-001A", "frame": "EME2000", "scale": "UTC", "method": "lagrange", "order": 8, "points": pts}
+    opm = lambda **kw: dict({"type": "opm", "name": "SAT", "id": "2020-001A", "frame": "EME2000", "scale": "UTC", "epoch": ep, "state": st, "kep": True,
+                             "cov": None, "mans": [], "ud": None, "as_orbit": False, "meta_by_kwargs": False}, **kw)
+    man = lambda f: {"kind": "I", "epoch": ep + 3600 * 10**6, "dur_ms": 0, "frame": f, "comment": "burn", "dv": [1.0, 2.0, 3.0]}
+    omm = lambda **kw: dict({"type": "omm", "name": "SAT", "id": "1998-067A", "scale": "UTC", "epoch": ep, "elems": [0.9, 4.3, 0.0006703, 2.27, 5.67, 0.00114],
+                             "bstar": -1.1606e-05, "ndot": -4.364e-05, "ndotdot": 0.0, "norad_id": 25544, "revolutions": 56353, "element_nb": 292,
+                             "cov": None, "ud": None, "via_tle": True}, **kw)
+    ob = lambda k, i, p=0: {"kind": k, "path": p, "epoch": ep + i * 5 * 10**6, "value": 0.5 if k != "Range" else 1234500.0}
+    tdm = lambda obs, paths=(("STA", "SAT", "STA"),): {"type": "tdm", "scale": "UTC", "paths": [list(p) for p in paths], "obs": obs}
+    return [
+        {"type": "oem", "segs": [seg([pt(0)])], "as_list": False},
+        {"type": "oem", "segs": [seg([pt(0, cov), pt(1)])], "as_list": False},
+        opm(mans=[man("QSW")]), opm(mans=[man("TNW"), man(None)]), opm(ud={"FOO": "bar"}), opm(ud={}), omm(ud={"FOO": "bar"}), omm(), omm(via_tle=False),
+        tdm([ob("Range", 0)]), tdm([ob("Doppler", 0), ob("Doppler", 1)]), tdm([ob("Elevation", 0), ob("Elevation", 1)]),
+        tdm([ob("Range", 0), ob("Range", 1), ob("Range", 0, 1), ob("Range", 1, 1)], (("STA", "SAT", "STA"), ("STB", "SAT"))),
+    ]
+
+
 def oracle(ctx, widened):
     out = Outcome()
     rng = ctx.rng
     big = widened or ctx.thorough
+    for spec in witness_specs():
+        check_spec(out, spec, "arg", kind="witness")
     n = {"opm": 60, "omm": 40, "oem": 40, "tdm": 50}
     for t, k in n.items():
         for i in range(k * (10 if big else 1)):
